@@ -1,20 +1,956 @@
+// C36: schema registry serde header round-trips and rejects bad input.
+//
+// Encode side: ids x index paths x payloads x API variants are encoded by the
+// real code and compared byte for byte with a reference encoder written from
+// the Confluent wire format (magic 0, big-endian int32 id, zig-zag varint
+// message-index array with the single-zero shortcut, payload).
+// Decode side: outputs are decoded back (Decode/DecodeNew through registered
+// decoders); hostile byte strings (all short strings, truncations and byte
+// substitutions of valid messages, varint sequences with inconsistent counts)
+// are fed to Serde.Decode/DecodeNew and ConfluentHeader.DecodeID/DecodeIndex
+// and compared with a reference parser: malformed or unregistered => error,
+// never a panic, never a wrong value.
 package main
 
 import (
-	"encoding/binary"
+	"bytes"
+	"encoding/hex"
+	"encoding/json"
 	"fmt"
+	"math"
+	"os"
+	"reflect"
+	"sync"
+	"sync/atomic"
 
 	"github.com/twmb/franz-go/pkg/sr"
+	"verif.local/ev"
 )
 
-func main() {
-	var h sr.ConfluentHeader
-	for _, c := range []int64{1 << 62, 1<<63 - 1, 1 << 45} {
+// ------------------------------------------------------------ reference codec
+
+func zigzag(n int64) uint64 { return uint64(n<<1) ^ uint64(n>>63) }
+
+func unzigzag(u uint64) int64 { return int64(u>>1) ^ -int64(u&1) }
+
+func appendUvarint(b []byte, u uint64) []byte {
+	for u >= 0x80 {
+		b = append(b, byte(u)|0x80)
+		u >>= 7
+	}
+	return append(b, byte(u))
+}
+
+func appendZZ(b []byte, n int64) []byte { return appendUvarint(b, zigzag(n)) }
+
+// refIndexBytes: Confluent message-indexes: array length then each index, all
+// zig-zag varints; the array [0] is written as the single byte 0.
+func refIndexBytes(index []int) []byte {
+	if len(index) == 0 {
+		return nil
+	}
+	if len(index) == 1 && index[0] == 0 {
+		return []byte{0}
+	}
+	b := appendZZ(nil, int64(len(index)))
+	for _, v := range index {
+		b = appendZZ(b, int64(v))
+	}
+	return b
+}
+
+func refHeader(id int, index []int) []byte {
+	b := []byte{0, byte(uint32(id) >> 24), byte(uint32(id) >> 16), byte(uint32(id) >> 8), byte(uint32(id))}
+	return append(b, refIndexBytes(index)...)
+}
+
+// getZZ reads one zig-zag LEB128 varint that fits 64 bits.
+func getZZ(b []byte) (v int64, n int, ok bool) {
+	var u uint64
+	for i := 0; i < len(b); i++ {
+		c := b[i]
+		if i == 9 && c > 1 {
+			return 0, 0, false // overflows 64 bits
+		}
+		u |= uint64(c&0x7f) << (7 * uint(i))
+		if c < 0x80 {
+			return unzigzag(u), i + 1, true
+		}
+		if i == 9 {
+			return 0, 0, false // longer than 10 bytes
+		}
+	}
+	return 0, 0, false // truncated
+}
+
+type idxParse struct {
+	malformed bool
+	count     int64 // decoded array length (valid when the first varint parsed)
+	haveCount bool
+	index     []int
+	rest      []byte
+}
+
+func refParseIndex(b []byte) idxParse {
+	c, n, ok := getZZ(b)
+	if !ok {
+		return idxParse{malformed: true}
+	}
+	p := idxParse{count: c, haveCount: true}
+	b = b[n:]
+	if c == 0 {
+		p.index, p.rest = []int{0}, b
+		return p
+	}
+	if c < 0 || c > int64(len(b)) { // every index takes at least one byte
+		p.malformed = true
+		return p
+	}
+	p.index = make([]int, 0, c)
+	for i := int64(0); i < c; i++ {
+		v, n, ok := getZZ(b)
+		if !ok {
+			p.malformed = true
+			p.index = nil
+			return p
+		}
+		p.index = append(p.index, int(v))
+		b = b[n:]
+	}
+	p.rest = b
+	return p
+}
+
+// ------------------------------------------------------------ plumbing
+
+type failure struct {
+	key, what string
+	art       map[string]any
+}
+
+func hx(b []byte) string { return hex.EncodeToString(b) }
+
+func sameInts(a, b []int) bool {
+	if len(a) != len(b) {
+		return false
+	}
+	for i := range a {
+		if a[i] != b[i] {
+			return false
+		}
+	}
+	return true
+}
+
+type tally struct {
+	r     *ev.Run
+	evals int64
+	keys  map[uint64]struct{}
+}
+
+func newTally(r *ev.Run) *tally { return &tally{r: r, keys: map[uint64]struct{}{}} }
+func (t *tally) flush() {
+	t.r.Evals(t.evals)
+	for k := range t.keys {
+		t.r.DistinctHash(k)
+	}
+	t.evals = 0
+	t.keys = map[uint64]struct{}{}
+}
+
+// key packs an outcome class: kind plus four small numbers.
+func (t *tally) key(kind byte, a, b, c, d int) {
+	t.keys[uint64(kind)<<56|uint64(a&0xff)<<40|uint64(b&0xffff)<<24|uint64(c&0xffff)<<8|uint64(d&0xff)] = struct{}{}
+}
+
+func b2i(b bool) int {
+	if b {
+		return 1
+	}
+	return 0
+}
+func (t *tally) report(f *failure) {
+	if f != nil {
+		t.r.Violation(f.key, f.what, f.art)
+	}
+}
+
+// ------------------------------------------------------------ header-level checks
+
+var hdr sr.ConfluentHeader
+
+// Counts above panicCount make the runtime refuse the allocation with a
+// (recoverable) panic; counts between allocCap and panicCount make DecodeIndex
+// really allocate 8*count bytes when maxLength does not bound them.
+const (
+	panicCount = int64(1) << 46
+	allocCap   = int64(16384)
+	allocMax   = int64(1) << 20
+)
+
+func boundary(c int64) bool { return c&(c-1) == 0 || (c+1)&c == 0 }
+
+// allocSafe reports whether DecodeIndex may be run on an input announcing
+// count indexes under maxLength without a giant allocation.
+func allocSafe(count int64, maxLength int) bool {
+	if maxLength > 0 && int64(maxLength) <= allocCap {
+		return true // rejected before allocating
+	}
+	if count <= allocCap || count >= panicCount {
+		return true
+	}
+	return count <= allocMax && boundary(count)
+}
+
+var skippedAlloc atomic.Int64
+
+// checkDecodeIndex runs ConfluentHeader.DecodeIndex (and the Serde wrapper
+// when s != nil) on b and compares with the reference parser.
+func checkDecodeIndex(b []byte, maxLength int, s *sr.Serde, t *tally) *failure {
+	ref := refParseIndex(b)
+	if ref.haveCount && !allocSafe(ref.count, maxLength) {
+		skippedAlloc.Add(1)
+		return nil
+	}
+	art := func() map[string]any {
+		return map[string]any{"kind": "decodeindex", "bytes": hx(b), "max_length": maxLength}
+	}
+	run := func(name string, fn func([]byte, int) ([]int, []byte, error)) (f *failure) {
+		var idx []int
+		var rest []byte
+		var err error
 		func() {
-			defer func() { fmt.Println("recovered:", recover()) }()
-			b := binary.AppendVarint(nil, c)
-			idx, rest, err := h.DecodeIndex(b, 0)
-			fmt.Println(len(idx), rest, err)
+			defer func() {
+				if p := recover(); p != nil {
+					key := "decodeindex-panic"
+					if ref.haveCount && ref.count >= panicCount {
+						key = "decodeindex-panic-huge-count"
+					}
+					f = &failure{key, fmt.Sprintf("%s(% x, maxLength=%d) panicked: %v (array length field decodes to %d)", name, b, maxLength, p, ref.count), art()}
+				}
+			}()
+			in := append([]byte(nil), b...)
+			idx, rest, err = fn(in, maxLength)
+		}()
+		if f != nil {
+			return f
+		}
+		tooLong := ref.haveCount && !ref.malformed && maxLength > 0 && ref.count > int64(maxLength)
+		if ref.malformed || tooLong {
+			if err == nil {
+				return &failure{"decodeindex-accepts-malformed", fmt.Sprintf("%s(% x, maxLength=%d) returned index %v rest % x without error; reference: malformed=%v count=%d", name, b, maxLength, idx, rest, ref.malformed, ref.count), art()}
+			}
+			return nil
+		}
+		canonical := bytes.Equal(b[:len(b)-len(ref.rest)], refIndexBytes(ref.index))
+		if err != nil {
+			if canonical {
+				return &failure{"decodeindex-rejects-valid", fmt.Sprintf("%s(% x, maxLength=%d) = error %v; it is the encoding of %v", name, b, maxLength, err, ref.index), art()}
+			}
+			return nil
+		}
+		if !sameInts(idx, ref.index) || !bytes.Equal(rest, ref.rest) {
+			return &failure{"decodeindex-wrong-result", fmt.Sprintf("%s(% x, maxLength=%d) = %v rest % x; reference %v rest % x", name, b, maxLength, idx, rest, ref.index, ref.rest), art()}
+		}
+		return nil
+	}
+	t.evals++
+	cls := 0
+	if ref.malformed {
+		cls = 1
+	} else if maxLength > 0 && ref.count > int64(maxLength) {
+		cls = 2
+	}
+	t.key('i', cls, len(ref.index), len(ref.rest), maxLength)
+	if f := run("ConfluentHeader.DecodeIndex", hdr.DecodeIndex); f != nil {
+		return f
+	}
+	if s != nil {
+		t.evals++
+		return run("Serde.DecodeIndex", s.DecodeIndex)
+	}
+	return nil
+}
+
+func checkDecodeID(b []byte, s *sr.Serde, t *tally) *failure {
+	art := func() map[string]any { return map[string]any{"kind": "decodeid", "bytes": hx(b)} }
+	run := func(name string, fn func([]byte) (int, []byte, error)) (f *failure) {
+		var id int
+		var rest []byte
+		var err error
+		func() {
+			defer func() {
+				if p := recover(); p != nil {
+					f = &failure{"decodeid-panic", fmt.Sprintf("%s(% x) panicked: %v", name, b, p), art()}
+				}
+			}()
+			id, rest, err = fn(append([]byte(nil), b...))
+		}()
+		if f != nil {
+			return f
+		}
+		bad := len(b) < 5 || b[0] != 0
+		if bad {
+			if err == nil {
+				return &failure{"decodeid-accepts-malformed", fmt.Sprintf("%s(% x) = id %d without error", name, b, id), art()}
+			}
+			return nil
+		}
+		want := int(uint32(b[1])<<24 | uint32(b[2])<<16 | uint32(b[3])<<8 | uint32(b[4]))
+		if err != nil || id != want || !bytes.Equal(rest, b[5:]) {
+			return &failure{"decodeid-wrong-result", fmt.Sprintf("%s(% x) = %d, % x, %v; want %d, % x", name, b, id, rest, err, want, b[5:]), art()}
+		}
+		return nil
+	}
+	t.evals++
+	t.key('d', b2i(len(b) >= 5 && b[0] == 0), len(b), 0, 0)
+	if f := run("ConfluentHeader.DecodeID", hdr.DecodeID); f != nil {
+		return f
+	}
+	if s != nil {
+		t.evals++
+		return run("Serde.DecodeID", s.DecodeID)
+	}
+	return nil
+}
+
+// ------------------------------------------------------------ E1: encode sweep
+
+type val struct{ P []byte }
+
+func encFn(v any) ([]byte, error)              { return v.(val).P, nil }
+func appEncFn(b []byte, v any) ([]byte, error) { return append(b, v.(val).P...), nil }
+func decFn(b []byte, v any) error {
+	v.(*val).P = append([]byte{}, b...)
+	return nil
+}
+
+var prefix = []byte{0xAA, 0x00, 0x55}
+
+// checkEncode runs every encode API for (id, index, payload) and round-trips.
+// apis: "all" or "basic" (Serde.Encode + round trip only).
+func checkEncode(id int, index []int, useIndexOpt bool, payload []byte, apis string, t *tally) *failure {
+	art := map[string]any{"kind": "encode", "id": id, "index": index, "index_opt": useIndexOpt, "payload": hx(payload)}
+	want := append(refHeader(id, index), payload...)
+	v := val{P: payload}
+	var f *failure
+	try := func(api string, fn func() ([]byte, error), pre []byte) bool {
+		var out []byte
+		var err error
+		func() {
+			defer func() {
+				if p := recover(); p != nil {
+					f = &failure{"encode-panic/" + api, fmt.Sprintf("%s(id=%d index=%v payload=% x) panicked: %v", api, id, index, payload, p), art}
+				}
+			}()
+			out, err = fn()
+		}()
+		if f != nil {
+			return false
+		}
+		t.evals++
+		exp := append(append([]byte{}, pre...), want...)
+		if err != nil || !bytes.Equal(out, exp) {
+			f = &failure{"encode-bytes/" + api, fmt.Sprintf("%s(id=%d index=%v payload=% x) = % x, %v; Confluent wire format is % x", api, id, index, payload, out, err, exp), art}
+			return false
+		}
+		return true
+	}
+
+	mk := func(opts ...sr.EncodingOpt) *sr.Serde {
+		s := sr.NewSerde()
+		if useIndexOpt {
+			opts = append(opts, sr.Index(index...))
+		}
+		s.Register(id, val{}, opts...)
+		return s
+	}
+	s := mk(sr.EncodeFn(encFn), sr.DecodeFn(decFn))
+	if !try("Serde.Encode", func() ([]byte, error) { return s.Encode(v) }, nil) {
+		return f
+	}
+	if apis == "all" {
+		if !try("Serde.AppendEncode", func() ([]byte, error) { return s.AppendEncode(append([]byte{}, prefix...), v) }, prefix) {
+			return f
+		}
+		s2 := mk(sr.AppendEncodeFn(appEncFn), sr.DecodeFn(decFn))
+		if !try("Serde.Encode/AppendEncodeFn", func() ([]byte, error) { return s2.Encode(v) }, nil) {
+			return f
+		}
+		if !try("Serde.AppendEncode/AppendEncodeFn", func() ([]byte, error) { return s2.AppendEncode(append([]byte{}, prefix...), v) }, prefix) {
+			return f
+		}
+		if !try("sr.Encode", func() ([]byte, error) { return sr.Encode(v, &hdr, id, index, encFn) }, nil) {
+			return f
+		}
+		if !try("sr.AppendEncode", func() ([]byte, error) {
+			return sr.AppendEncode(append([]byte{}, prefix...), v, &hdr, id, index, appEncFn)
+		}, prefix) {
+			return f
+		}
+		if len(payload) == 0 {
+			if !try("ConfluentHeader.AppendEncode", func() ([]byte, error) { return hdr.AppendEncode(append([]byte{}, prefix...), id, index) }, prefix) {
+				return f
+			}
+		}
+	}
+
+	// round trip through the registered decoder
+	func() {
+		defer func() {
+			if p := recover(); p != nil {
+				f = &failure{"roundtrip-panic", fmt.Sprintf("decoding % x panicked: %v", want, p), art}
+			}
+		}()
+		var out val
+		t.evals++
+		if err := s.Decode(want, &out); err != nil || !bytes.Equal(out.P, payload) {
+			f = &failure{"roundtrip/Decode", fmt.Sprintf("Decode(% x) = payload % x, %v; encoded payload % x (id=%d index=%v)", want, out.P, err, payload, id, index), art}
+			return
+		}
+		t.evals++
+		nv, err := s.DecodeNew(want)
+		pv, ok := nv.(*val)
+		if err != nil || !ok || !bytes.Equal(pv.P, payload) {
+			f = &failure{"roundtrip/DecodeNew", fmt.Sprintf("DecodeNew(% x) = %#v, %v; encoded payload % x (id=%d index=%v)", want, nv, err, payload, id, index), art}
+			return
+		}
+		if apis == "all" {
+			gid, rest, err := s.DecodeID(want)
+			if err != nil || gid != id {
+				f = &failure{"roundtrip/DecodeID", fmt.Sprintf("DecodeID(% x) = %d, %v; want %d", want, gid, err, id), art}
+				return
+			}
+			if len(index) > 0 {
+				for _, ml := range []int{0, len(index), len(index) + 1, math.MaxInt} {
+					gi, r2, err := s.DecodeIndex(rest, ml)
+					if err != nil || !sameInts(gi, index) || !bytes.Equal(r2, payload) {
+						f = &failure{"roundtrip/DecodeIndex", fmt.Sprintf("DecodeIndex(% x, %d) = %v, % x, %v; want %v, % x", rest, ml, gi, r2, err, index, payload), art}
+						return
+					}
+				}
+			}
+		}
+	}()
+	if f == nil {
+		t.key('e', len(refHeader(id, index)), len(index), len(payload), len(apis))
+	}
+	return f
+}
+
+func allPaths(vals []int, maxDepth int) [][]int {
+	out := [][]int{nil}
+	var rec func(cur []int)
+	rec = func(cur []int) {
+		if len(cur) == maxDepth {
+			return
+		}
+		for _, v := range vals {
+			next := append(append([]int{}, cur...), v)
+			out = append(out, next)
+			rec(next)
+		}
+	}
+	rec(nil)
+	return out
+}
+
+func allPayloads(maxLen int) [][]byte {
+	out := [][]byte{{}}
+	if maxLen >= 1 {
+		for a := 0; a < 256; a++ {
+			out = append(out, []byte{byte(a)})
+		}
+	}
+	if maxLen >= 2 {
+		for a := 0; a < 256; a++ {
+			for b := 0; b < 256; b++ {
+				out = append(out, []byte{byte(a), byte(b)})
+			}
+		}
+	}
+	return out
+}
+
+func parallel(n int, fn func(i int, t *tally), r *ev.Run) {
+	var next int64
+	var wg sync.WaitGroup
+	for w := 0; w < ev.Workers(); w++ {
+		wg.Add(1)
+		go func() {
+			defer wg.Done()
+			t := newTally(r)
+			for {
+				i := int(atomic.AddInt64(&next, 1) - 1)
+				if i >= n || r.Violations() > 100 {
+					break
+				}
+				fn(i, t)
+				if t.evals > 1<<16 {
+					t.flush()
+				}
+			}
+			t.flush()
 		}()
 	}
+	wg.Wait()
+}
+
+var ids = []int{0, 1, 255, 256, math.MaxInt32}
+
+func partEncode(r *ev.Run) {
+	vals := []int{0, 1, 63, 64, -1, math.MaxInt32}
+	if ev.Thorough() {
+		vals = append(vals, -64, -65, math.MaxInt64, math.MinInt64)
+	}
+	paths := allPaths(vals, 3)
+	type ip struct {
+		id   int
+		path []int
+	}
+	var cases []ip
+	for _, id := range ids {
+		for _, p := range paths {
+			cases = append(cases, ip{id, p})
+		}
+	}
+	short := allPayloads(1)
+	two := allPayloads(2)[len(short):]
+	// selected paths that get every 2-byte payload in quick as well
+	sel := map[string]bool{}
+	for _, p := range [][]int{nil, {0}, {1}, {64}, {-1}, {0, 0}, {1, 63}, {math.MaxInt32, -1, 64}} {
+		sel[fmt.Sprint(p)] = true
+	}
+	r.Set("encode_paths", len(paths))
+	r.Set("encode_id_path_pairs", len(cases))
+	parallel(len(cases), func(i int, t *tally) {
+		c := cases[i]
+		for _, pl := range short {
+			t.report(checkEncode(c.id, c.path, len(c.path) > 0, pl, "all", t))
+		}
+		if len(c.path) == 0 {
+			// depth 0 both ways: no Index option at all, and Index() with no values
+			for _, pl := range short {
+				t.report(checkEncode(c.id, nil, true, pl, "all", t))
+			}
+		}
+		if ev.Thorough() || sel[fmt.Sprint(c.path)] {
+			for _, pl := range two {
+				t.report(checkEncode(c.id, c.path, len(c.path) > 0, pl, "basic", t))
+			}
+		}
+	}, r)
+	r.Sample(map[string]any{"part": "encode", "id": 256, "index": []int{1, 63}, "payload": "01ff", "expected_bytes": hx(append(refHeader(256, []int{1, 63}), 1, 0xff))})
+}
+
+// ------------------------------------------------------------ E2: shared serde
+
+type regID struct {
+	noIndex  int // registration key, -1 if this id is registered with index paths
+	paths    map[string]int
+	maxDepth int
+}
+
+type probe struct {
+	key     int
+	payload []byte
+}
+
+type shared struct {
+	s     *sr.Serde
+	reg   map[uint32]*regID
+	types []reflect.Type
+	ids   []int
+	paths [][]int
+}
+
+func mkType(k int) reflect.Type {
+	return reflect.StructOf([]reflect.StructField{
+		{Name: "P", Type: reflect.TypeOf([]byte(nil))},
+		{Name: "T", Type: reflect.ArrayOf(k, reflect.TypeOf(struct{}{}))},
+	})
+}
+
+func buildShared(vals []int) *shared {
+	sh := &shared{reg: map[uint32]*regID{}}
+	sh.s = sr.NewSerde(sr.EncodeFn(func(v any) ([]byte, error) {
+		return reflect.ValueOf(v).Field(0).Bytes(), nil
+	}))
+	add := func(id int, path []int) {
+		k := len(sh.types)
+		typ := mkType(k)
+		sh.types = append(sh.types, typ)
+		sh.ids = append(sh.ids, id)
+		sh.paths = append(sh.paths, path)
+		ri := sh.reg[uint32(id)]
+		if ri == nil {
+			ri = &regID{noIndex: -1, paths: map[string]int{}}
+			sh.reg[uint32(id)] = ri
+		}
+		dec := sr.DecodeFn(func(b []byte, v any) error {
+			if p, ok := v.(*probe); ok {
+				p.key, p.payload = k, append([]byte{}, b...)
+				return nil
+			}
+			reflect.ValueOf(v).Elem().Field(0).SetBytes(append([]byte{}, b...))
+			return nil
+		})
+		if len(path) == 0 {
+			ri.noIndex = k
+			sh.s.Register(id, reflect.New(typ).Elem().Interface(), dec)
+			return
+		}
+		ri.paths[fmt.Sprint(path)] = k
+		if len(path) > ri.maxDepth {
+			ri.maxDepth = len(path)
+		}
+		sh.s.Register(id, reflect.New(typ).Elem().Interface(), dec, sr.Index(path...))
+	}
+	paths := allPaths(vals, 3)[1:]
+	for _, id := range ids {
+		for _, p := range paths {
+			add(id, p)
+		}
+	}
+	add(2, nil)
+	add(257, nil)
+	return sh
+}
+
+func (sh *shared) value(k int, payload []byte) any {
+	v := reflect.New(sh.types[k]).Elem()
+	v.Field(0).SetBytes(payload)
+	return v.Interface()
+}
+
+// refSerde: what decoding b through the registrations must give.
+func (sh *shared) refSerde(b []byte) (key int, payload []byte, ok bool, canonical bool) {
+	if len(b) < 5 || b[0] != 0 {
+		return 0, nil, false, false
+	}
+	id := uint32(b[1])<<24 | uint32(b[2])<<16 | uint32(b[3])<<8 | uint32(b[4])
+	ri := sh.reg[id]
+	if ri == nil {
+		return 0, nil, false, false
+	}
+	if ri.noIndex >= 0 {
+		return ri.noIndex, b[5:], true, true
+	}
+	p := refParseIndex(b[5:])
+	if p.malformed || p.count > int64(ri.maxDepth) {
+		return 0, nil, false, false
+	}
+	k, found := ri.paths[fmt.Sprint(p.index)]
+	if !found {
+		return 0, nil, false, false
+	}
+	canonical = bytes.Equal(b[:len(b)-len(p.rest)], refHeader(int(id), p.index))
+	return k, p.rest, true, canonical
+}
+
+func (sh *shared) checkDecode(b []byte, t *tally) *failure {
+	art := func() map[string]any { return map[string]any{"kind": "serde-decode", "bytes": hx(b)} }
+	wk, wp, wok, canonical := sh.refSerde(b)
+	var f *failure
+	// DecodeNew: the returned type tells which registration was chosen
+	func() {
+		defer func() {
+			if p := recover(); p != nil {
+				f = &failure{"serde-decode-panic", fmt.Sprintf("DecodeNew(% x) panicked: %v", b, p), art()}
+			}
+		}()
+		t.evals++
+		nv, err := sh.s.DecodeNew(append([]byte(nil), b...))
+		if !wok {
+			if err == nil {
+				f = &failure{"serde-decode-accepts-bad", fmt.Sprintf("DecodeNew(% x) = %#v without error; the header is malformed or not registered", b, nv), art()}
+			}
+			return
+		}
+		if err != nil {
+			if canonical {
+				f = &failure{"serde-decode-rejects-valid", fmt.Sprintf("DecodeNew(% x) = error %v; it is the encoding of id=%d index=%v payload % x", b, err, sh.ids[wk], sh.paths[wk], wp), art()}
+			}
+			return
+		}
+		rv := reflect.ValueOf(nv)
+		if rv.Kind() != reflect.Pointer || rv.Type().Elem() != sh.types[wk] || !bytes.Equal(rv.Elem().Field(0).Bytes(), wp) {
+			f = &failure{"serde-decode-wrong-result", fmt.Sprintf("DecodeNew(% x) = %#v; want registration id=%d index=%v with payload % x", b, nv, sh.ids[wk], sh.paths[wk], wp), art()}
+		}
+	}()
+	if f != nil {
+		return f
+	}
+	func() {
+		defer func() {
+			if p := recover(); p != nil {
+				f = &failure{"serde-decode-panic", fmt.Sprintf("Decode(% x) panicked: %v", b, p), art()}
+			}
+		}()
+		t.evals++
+		var pr probe
+		pr.key = -1
+		err := sh.s.Decode(append([]byte(nil), b...), &pr)
+		if !wok {
+			if err == nil {
+				f = &failure{"serde-decode-accepts-bad", fmt.Sprintf("Decode(% x) succeeded (registration %d); the header is malformed or not registered", b, pr.key), art()}
+			}
+			return
+		}
+		if err != nil {
+			if canonical {
+				f = &failure{"serde-decode-rejects-valid", fmt.Sprintf("Decode(% x) = error %v; it is the encoding of id=%d index=%v payload % x", b, err, sh.ids[wk], sh.paths[wk], wp), art()}
+			}
+			return
+		}
+		if pr.key != wk || !bytes.Equal(pr.payload, wp) {
+			f = &failure{"serde-decode-wrong-result", fmt.Sprintf("Decode(% x) used registration %d payload % x; want id=%d index=%v payload % x", b, pr.key, pr.payload, sh.ids[wk], sh.paths[wk], wp), art()}
+		}
+	}()
+	if f == nil {
+		t.key('s', b2i(wok), b2i(canonical), len(wp), len(b))
+	}
+	return f
+}
+
+var subst = []byte{0x00, 0x01, 0x7f, 0x80, 0xff}
+
+// mutations: b itself, every proper prefix, every single-byte substitution.
+func mutations(b []byte, fn func([]byte)) {
+	fn(b)
+	for n := 0; n < len(b); n++ {
+		fn(b[:n])
+	}
+	for i := range b {
+		for _, c := range subst {
+			if b[i] == c {
+				continue
+			}
+			m := append([]byte{}, b...)
+			m[i] = c
+			fn(m)
+		}
+	}
+}
+
+func partShared(r *ev.Run) {
+	vals := []int{0, 1, 63, 64, -1, math.MaxInt32}
+	sh := buildShared(vals)
+	r.Set("shared_serde_registrations", len(sh.types))
+	payloads := allPayloads(1)
+	// 1. round trip of every registration through the shared tree, then every
+	// truncation and substitution of a valid message
+	parallel(len(sh.types), func(k int, t *tally) {
+		for _, pl := range payloads {
+			want := append(refHeader(sh.ids[k], sh.paths[k]), pl...)
+			var out []byte
+			var err error
+			func() {
+				defer func() {
+					if p := recover(); p != nil {
+						err = fmt.Errorf("panic: %v", p)
+					}
+				}()
+				out, err = sh.s.Encode(sh.value(k, pl))
+			}()
+			t.evals++
+			if err != nil || !bytes.Equal(out, want) {
+				t.report(&failure{"encode-bytes/shared", fmt.Sprintf("shared Serde Encode(id=%d index=%v payload % x) = % x, %v; Confluent wire format is % x", sh.ids[k], sh.paths[k], pl, out, err, want), map[string]any{"kind": "shared-encode", "id": sh.ids[k], "index": sh.paths[k], "payload": hx(pl)}})
+				continue
+			}
+			// must decode (canonical by construction)
+			if wk, _, ok, can := sh.refSerde(want); !ok || !can || wk != k {
+				ev.InfraError("reference registry inconsistent for id=%d index=%v", sh.ids[k], sh.paths[k])
+			}
+			t.report(sh.checkDecode(want, t))
+		}
+		msg := append(refHeader(sh.ids[k], sh.paths[k]), 0x01, 0x80)
+		mutations(msg, func(m []byte) { t.report(sh.checkDecode(m, t)) })
+		// the same header under an id that is not registered
+		un := append([]byte{}, msg...)
+		un[4] ^= 0x08
+		mutations(un, func(m []byte) { t.report(sh.checkDecode(m, t)) })
+		// header-level decoders on the same material
+		mutations(msg, func(m []byte) {
+			t.report(checkDecodeID(m, sh.s, t))
+			if len(m) >= 5 {
+				for _, ml := range []int{0, 1, 5, math.MaxInt} {
+					t.report(checkDecodeIndex(m[5:], ml, sh.s, t))
+				}
+			}
+		})
+	}, r)
+
+	// 2. every short byte string: bare, and after a valid magic+id for an id
+	// registered with index paths, one without, and one not registered
+	maxLen := 2
+	if ev.Thorough() {
+		maxLen = 3
+	}
+	r.Set("bound_completed_bytes_len", maxLen)
+	heads := [][]byte{nil, {0, 0, 0, 0, 1}, {0, 0, 0, 0, 2}, {0, 0, 0, 0, 3}, {0, 0x7f, 0xff, 0xff, 0xff}, {1, 0, 0, 0, 1}}
+	parallel(256, func(a int, t *tally) {
+		for _, h := range heads {
+			each := func(tail []byte) {
+				t.report(sh.checkDecode(append(append([]byte{}, h...), tail...), t))
+			}
+			if a == 0 {
+				each(nil)
+			}
+			each([]byte{byte(a)})
+			if maxLen >= 2 {
+				for b := 0; b < 256; b++ {
+					each([]byte{byte(a), byte(b)})
+					if maxLen >= 3 {
+						for c := 0; c < 256; c++ {
+							each([]byte{byte(a), byte(b), byte(c)})
+						}
+					}
+				}
+			}
+		}
+	}, r)
+	r.Sample(map[string]any{"part": "serde-decode", "bytes": "0000000001047e8001", "meaning": "id 1, index [1,63]... substituted", "registrations": len(sh.types)})
+}
+
+// ------------------------------------------------------------ E3: header decoders on raw strings
+
+func partHeader(r *ev.Run) {
+	maxLen := 2
+	if ev.Thorough() {
+		maxLen = 3
+	}
+	mls := []int{0, 1, 5, math.MaxInt}
+	parallel(256, func(a int, t *tally) {
+		one := func(b []byte) {
+			t.report(checkDecodeID(b, nil, t))
+			for _, ml := range mls {
+				t.report(checkDecodeIndex(b, ml, nil, t))
+			}
+		}
+		if a == 0 {
+			one(nil)
+		}
+		one([]byte{byte(a)})
+		if maxLen >= 2 {
+			for b := 0; b < 256; b++ {
+				one([]byte{byte(a), byte(b)})
+				if maxLen >= 3 {
+					for c := 0; c < 256; c++ {
+						one([]byte{byte(a), byte(b), byte(c)})
+					}
+				}
+			}
+		}
+	}, r)
+	r.Set("decodeindex_unbounded_count_cap", allocCap)
+
+	// structured: every sequence of <= 4 zig-zag varints over the value set
+	// (the first is read as the array length, so most are inconsistent), each
+	// followed by nothing / 00 / ff, with all truncations; substitutions too
+	// for sequences of <= 3.
+	vals := []int64{0, 1, 2, 3, 63, 64, -1, math.MaxInt32, math.MaxInt64, math.MinInt64, 1 << 62}
+	if !ev.Thorough() {
+		vals = []int64{0, 1, 2, 3, 64, -1, math.MaxInt32, math.MaxInt64, 1 << 62}
+	}
+	var seqs [][]int64
+	var rec func(cur []int64)
+	rec = func(cur []int64) {
+		if len(cur) > 0 {
+			seqs = append(seqs, append([]int64{}, cur...))
+		}
+		if len(cur) == 4 {
+			return
+		}
+		for _, v := range vals {
+			rec(append(cur, v))
+		}
+	}
+	rec(nil)
+	r.Set("varint_sequences", len(seqs))
+	parallel(len(seqs), func(i int, t *tally) {
+		var b []byte
+		for _, v := range seqs[i] {
+			b = appendZZ(b, v)
+		}
+		for _, tail := range [][]byte{nil, {0}, {0xff}} {
+			m := append(append([]byte{}, b...), tail...)
+			visit := func(x []byte) {
+				for _, ml := range mls {
+					t.report(checkDecodeIndex(x, ml, nil, t))
+				}
+			}
+			if len(seqs[i]) <= 3 {
+				mutations(m, visit)
+			} else {
+				visit(m)
+				for n := 0; n < len(m); n++ {
+					visit(m[:n])
+				}
+			}
+		}
+	}, r)
+	r.Sample(map[string]any{"part": "decodeindex", "bytes": hx(appendZZ(appendZZ(nil, 2), 63)), "max_length": 1, "expected": "error (2 indexes announced, 1 allowed)"})
+}
+
+func main() {
+	if len(os.Args) == 3 && os.Args[1] == "--replay" {
+		replay(os.Args[2])
+		return
+	}
+	r := ev.New("C36", "exploration")
+	r.Rule("encode: ids {0,1,255,256,2^31-1} x every index path of depth 0..3 over {0,1,63,64,-1,2^31-1} (thorough adds -64,-65,MaxInt64,MinInt64) x every payload of <=1 byte through 7 encode APIs + round trip, every 2-byte payload for 8 selected paths (thorough: all paths); shared Serde with all 1290 (id,path) registrations + 2 index-less ids: round trip, every truncation and every single-byte substitution from {00,01,7f,80,ff} of each valid message under its id and under an unregistered id, every byte string of length <=2 (thorough 3) bare and after 5 different magic+id heads; ConfluentHeader.DecodeID/DecodeIndex with maxLength {0,1,5,MaxInt} on every byte string of length <=2 (thorough 3) and on every sequence of <=4 zig-zag varints over a value set incl. MaxInt64/2^62 with tails, truncations and substitutions; distinct = outcome classes (api, verdict, index length, rest length)")
+	r.Assume("reference encoder/parser written from the Confluent wire-format description (magic 0, 4-byte big-endian id, zig-zag varint message-index array, [0] as single 0 byte)",
+		"inputs that are not byte-for-byte outputs of the reference encoder (non-minimal varints, [0] spelled 02 00) may be rejected or accepted; if accepted the result must equal the reference parse",
+		"DecodeIndex allocates the announced array before reading it; when maxLength does not bound it (0, MaxInt) inputs announcing a count in (16384, 2^46) are only run at power-of-two boundaries up to 2^20 and skipped above (a real multi-gigabyte allocation, or the runtime's unrecoverable out-of-memory abort); counts >= 2^46 are run (the runtime refuses them with a recoverable panic)")
+	partEncode(r)
+	partShared(r)
+	partHeader(r)
+	r.Set("decodeindex_inputs_skipped_over_alloc_cap", skippedAlloc.Load())
+	r.Finish()
+}
+
+func replay(path string) {
+	raw, err := os.ReadFile(path)
+	if err != nil {
+		ev.InfraError("replay: %v", err)
+	}
+	var v struct {
+		Artefact struct {
+			Kind      string `json:"kind"`
+			Bytes     string `json:"bytes"`
+			MaxLength int    `json:"max_length"`
+			ID        int    `json:"id"`
+			Index     []int  `json:"index"`
+			IndexOpt  bool   `json:"index_opt"`
+			Payload   string `json:"payload"`
+		} `json:"artefact"`
+	}
+	if err := json.Unmarshal(raw, &v); err != nil {
+		ev.InfraError("replay: %v", err)
+	}
+	a := v.Artefact
+	b, _ := hex.DecodeString(a.Bytes)
+	pl, _ := hex.DecodeString(a.Payload)
+	t := newTally(nil)
+	var f *failure
+	switch a.Kind {
+	case "decodeindex":
+		f = checkDecodeIndex(b, a.MaxLength, sr.NewSerde(), t)
+	case "decodeid":
+		f = checkDecodeID(b, sr.NewSerde(), t)
+	case "encode":
+		f = checkEncode(a.ID, a.Index, a.IndexOpt, pl, "all", t)
+	case "serde-decode":
+		f = buildShared([]int{0, 1, 63, 64, -1, math.MaxInt32}).checkDecode(b, t)
+	case "shared-encode":
+		f = checkEncode(a.ID, a.Index, len(a.Index) > 0, pl, "all", t)
+	default:
+		ev.InfraError("replay: unknown artefact kind %q", a.Kind)
+	}
+	if f != nil {
+		fmt.Printf("REPLAY: VIOLATION key=%s\n  %s\n", f.key, f.what)
+		os.Exit(1)
+	}
+	fmt.Println("REPLAY: held")
 }
